@@ -73,6 +73,7 @@ func (a snapCanon) String() string {
 }
 
 type dynRunner struct {
+	nLate  int
 	h      *Host
 	last   Resp
 	bubble bool
@@ -147,6 +148,21 @@ func (d *dynRunner) apply(op *Op) *Resp {
 				d.last = Resp{}
 			}
 		}
+	case "register":
+		// the host registers one more function and one more command, at whatever moment the plan says
+		d.nLate++
+		name := fmt.Sprintf("late%d", d.nLate)
+		h := d.h
+		h.dr.AddFunction(name, func(args []*variable.Value) (*variable.Value, error) {
+			h.call("fn", name)
+			return variable.NewNumber(1), nil
+		})
+		h.dr.AddCommand(name, func(args []*variable.Value) <-chan error {
+			h.call("cmd", name)
+			ch := make(chan error, 1)
+			ch <- nil
+			return ch
+		})
 	case "release_all":
 		n := d.h.nInvs()
 		for j := 0; j < n; j++ {
